@@ -846,6 +846,16 @@ func genConnScenario(r *gen.Rng, p connProfile) string {
 		}
 		return false
 	}
+	// a Close whose unbind_resp is on its way (queued behind a blocked offer, or boxed while its Write is held) will cancel
+	// the context and close the transport as soon as it gets it: anything fed AFTER that answer races with the teardown
+	closeAnswerPending := func() bool {
+		for _, c := range cs {
+			if c.kind == "c" && c.answered && c.stage < 3 {
+				return true
+			}
+		}
+		return false
+	}
 	unsolK := 0
 	// what a returning close call does
 	closeReturns := func(c *genCaller, ok bool) {
@@ -936,6 +946,9 @@ func genConnScenario(r *gen.Rng, p connProfile) string {
 				c.stage = 2
 			}
 		case choice < 70: // the peer answers
+			if closeAnswerPending() {
+				continue
+			}
 			var cand []int
 			for i, c := range cs {
 				if c.stage >= 1 && !c.answered && c.seq > 0 && c.kind != "n" {
@@ -972,7 +985,7 @@ func genConnScenario(r *gen.Rng, p connProfile) string {
 				}
 			}
 		case choice < 70+p.unsolPct:
-			if connDone && drain && !watchGone {
+			if (connDone && drain && !watchGone) || closeAnswerPending() {
 				continue
 			}
 			unsolK++
@@ -985,7 +998,7 @@ func genConnScenario(r *gen.Rng, p connProfile) string {
 			}
 		case choice < 70+p.unsolPct+p.badPct && p.raw && r.Chance(50):
 			// a valid frame of a random type with damaged body octets (framing and command_id intact)
-			if connDone && drain && !watchGone {
+			if (connDone && drain && !watchGone) || closeAnswerPending() {
 				continue
 			}
 			frame, expect := rawMutatedFrame(r, int32(newSeq()))
@@ -1017,6 +1030,9 @@ func genConnScenario(r *gen.Rng, p connProfile) string {
 				watchGone = true
 			}
 		case choice < 70+p.unsolPct+p.badPct:
+			if closeAnswerPending() {
+				continue
+			}
 			unsolK++
 			ev = append(ev, fmt.Sprintf("bad:%d:%d", r.Pick(newSeq(), newSeq(), 0, -5), unsolK))
 			if connDone && !offeringBlocked {
@@ -1092,7 +1108,7 @@ func genConnScenario(r *gen.Rng, p connProfile) string {
 					readEnded = true
 				}
 			case 2:
-				if connDone && drain && !watchGone {
+				if (connDone && drain && !watchGone) || closeAnswerPending() {
 					continue
 				}
 				ev = append(ev, "fatal")
